@@ -354,6 +354,23 @@ impl Check for C13 {
                 tampered.push(tampered[i]);
                 kinds.push(format!("dup@{i}"));
             }
+            if cx.rng.gen_bool(0.15) {
+                // a payee listed twice: an altered copy of its quote AHEAD of the entry itself (whoever looks quotes up by
+                // payee must not lose sight of the altered one)
+                let i = cx.rng.gen_range(0..entries.len());
+                let mut copy = entries[i].clone();
+                let f = cx.rng.gen_range(0..11);
+                let (l, _) = mutate_field(&mut cx.rng, &mut copy.1, f, &other);
+                if copy.1 != entries[i].1 && copy.1 != orig[i] {
+                    entries.insert(i, copy);
+                    orig.insert(i, orig[i].clone());
+                    claimed.insert(i, claimed[i]);
+                    signer.insert(i, signer[i]);
+                    tampered.insert(i, true);
+                    kinds.push(format!("altered-twin-ahead-of@{i}:{l}"));
+                    cx.count("proof:altered-twin-ahead-of-an-entry");
+                }
+            }
             for i in 0..entries.len() {
                 if tampered[i] && entries[i].1 == orig[i] {
                     tampered[i] = false;
